@@ -1112,6 +1112,39 @@ func (x *Exec) lineHooks(fr *Frame, st *State, ins ssa.Instruction) {
 		st.quiet++
 		v := ev.eval(cl.Expr)
 		st.quiet--
+		for _, d := range ev.defs {
+			st.assume(d)
+		}
+		ev.defs = nil
+		if i := strings.LastIndex(cl.Label, "."); i > 0 {
+			// ghost field of an object: base.field = v
+			base, fld := cl.Label[:i], cl.Label[i+1:]
+			g, isGhost := x.prog.cs.Ghosts[fld]
+			if !isGhost {
+				x.abort("at line set %s: %s is not a ghost field", cl.Label, fld)
+			}
+			be, err := x.prog.cs.parseExpr(base)
+			if err != nil {
+				x.abort("at line set %s: %v", cl.Label, err)
+			}
+			st.quiet++
+			var ref Term
+			if sv, isSlice := ev.eval(be).(*SliceV); isSlice {
+				ref = sv.Ptr // ghost state of a slice is keyed by its backing array
+			} else {
+				ref = ev.term(be)
+			}
+			st.quiet--
+			p, okp := v.(*Prim)
+			if !okp {
+				x.abort("at line set %s: not a primitive value", cl.Label)
+			}
+			key, arr := x.ghostLeaf(st, fld, g.Sort)
+			x.checkFrame(st, key, ref)
+			x.recordWrite(st, key)
+			x.setHeap(st, key, Store(arr, ref, p.T))
+			continue
+		}
 		id, ok := fr.ctx.ghost[cl.Label]
 		if !ok {
 			x.abort("at line set %s: unknown ghost variable", cl.Label)
